@@ -382,6 +382,15 @@ package scanner
 //@   ensures [floor-monotone] old(floor_set) ==> floor_set && floor >= old(floor)
 //@   ensures [closed] !batch_open
 
+// interface view of (*scanner).Range: the clauses proved for the implementation above
+//@ func Scanner.Range(ctx, start, end, revision, limit) (kvs, err)
+//@   assumed
+//@   requires [no-open-batch] !batch_open
+//@   modifies inferred:(*scanner).Range ghost.bw_n ghost.bw_kind ghost.bw_key ghost.bw_val ghost.bw_ttl ghost.commits ghost.last_batch ghost.last_err ghost.batch_open ghost.floor ghost.floor_set
+//@   ensures [floor-unchanged] floor == old(floor) && floor_set == old(floor_set)
+//@   ensures [closed] !batch_open
+//@   ensures [limited-read-is-a-prefix-of-the-snapshot] err == nil && limit > 0 ==> it_lo == start && it_hi == end && limited_snapshot(kvs, revision, limit)
+
 //@ func Scanner.Compact(ctx, start, end, revision)
 //@   assumed
 //@   requires [no-open-batch] !batch_open
